@@ -20,7 +20,7 @@ use std::sync::atomic::{AtomicUsize, Ordering};
 
 use std::time::{Duration, Instant};
 
-use std::collections::{HashMap, HashSet};
+use std::collections::{BTreeMap, HashSet};
 
 use byteorder::{BigEndian, ByteOrder};
 
@@ -44,7 +44,7 @@ pub struct StunAgent {
     local_addr: SocketAddr,
     remote_addr: Option<SocketAddr>,
     validated_peers: HashSet<SocketAddr>,
-    outstanding_requests: HashMap<TransactionId, StunRequestState>,
+    outstanding_requests: BTreeMap<TransactionId, StunRequestState>,
     local_credentials: Option<MessageIntegrityCredentials>,
     remote_credentials: Option<MessageIntegrityCredentials>,
 }
